@@ -698,6 +698,21 @@ func checkEnumsLast(w *World, r *Result) {
 			// PTH-C16p: the expansion runs on every path through the function (every custom statement may hold a placeholder)
 			var cs []string
 			for _, c := range pathCondsNoLoop(fi, as) {
+				// the negation of an early exit that returns nothing (nil, an empty string or list): no SQL is
+				// produced on the other path, so nothing can reach it unexpanded
+				if c.exit != nil && len(c.exit.Body.List) == 1 {
+					if ret, ok := c.exit.Body.List[0].(*ast.ReturnStmt); ok {
+						empty := true
+						for _, res := range ret.Results {
+							if es(res) != "nil" && es(res) != `""` {
+								empty = false
+							}
+						}
+						if empty {
+							continue
+						}
+					}
+				}
 				if c.expr != nil {
 					t := es(c.expr)
 					if !c.truth {
